@@ -618,6 +618,21 @@ def evalArg (arg : PExpr R) : Except IntError R :=
   | .ok v => .ok v
   | .error e => .error (.unevaluatedArgument arg.text e)
 
+/-- a Rust panic inside a function that returns `Result` (slice / map indexing): carried like `Res.toE` carries the
+model's `panic` outcome -/
+def panicErr (site : String) : IntError := .unknownGate ("<panic> " ++ site)
+
+def orPanic {α : Type} (site : String) : Option α → Except IntError α
+  | some a => .ok a
+  | none => .error (panicErr site)
+
+/-- `args_i.iter().cloned().map(|a| parse::eval_extended(a, vars.clone())).collect::<parse::Result<Vec<_>>>()
+.map_err(|e| Error::UnevaluatedArgument(name, e))`: the first failing expression decides -/
+def evalArgsWith (name : String) (vars : List (String × R)) (l : List (PExpr R)) : Except IntError (List R) :=
+  match l.mapM (fun a => evalExtended a vars) with
+  | .ok v => .ok v
+  | .error e => .error (.unevaluatedArgument name e)
+
 def extApplyGate (self changes : Interp R) (name : String) (regs : List Arg) (args : List (PExpr R)) :
     Except IntError (Interp R) := (processApply self changes ⟨name, regs, args⟩).toE
 
